@@ -2077,6 +2077,7 @@ def registry():
         'core::ops::RangeInclusive::<Idx>::new': m_range_incl_new,
         'core::iter::range::<impl core::iter::Iterator for core::ops::RangeInclusive<A>>::next': m_range_incl_next,
         "<core::slice::Iter<'a, T> as core::iter::Iterator>::next": m_slice_iter_next,
+        "<heapless::histbuf::OldestOrdered<'a, T, N> as core::iter::Iterator>::next": m_slice_iter_next,
         "core::slice::iter::<impl core::iter::IntoIterator for &'a [T]>::into_iter": m_ref_into_iter,
         "<&'a [T] as core::iter::IntoIterator>::into_iter": m_ref_into_iter,
         'heapless::histbuf::HistoryBuffer::<T, N>::new': m_hist_new,
